@@ -29,6 +29,8 @@ func main() {
 		baselineCmd()
 	case "pinconsts":
 		pinConstsCmd()
+	case "replay":
+		replayCmd(os.Args[2:])
 	default:
 		fmt.Fprintln(os.Stderr, "unknown command", os.Args[1])
 		os.Exit(2)
